@@ -46,9 +46,14 @@ static void gauss_rule(size_t n, std::vector<long double> &t, std::vector<long d
 struct WA { template <class T> T operator()(const T &x) const { return static_cast<T>(1) + x * x; } };                                   // 1 + x^2
 struct WB { template <class T> T operator()(const T &x) const { return x; } };                                                            // x
 struct WC { template <class T> T operator()(const T &x) const { return x * x * x - static_cast<T>(2) * x + static_cast<T>(1) / static_cast<T>(2); } };  // x^3 - 2x + 1/2
+// weights whose call operator returns a type NARROWER than the splines' scalar (a constant weight written `return 2;`):
+// the integral is still formed in the splines' type
+struct WInt { template <class T> int operator()(const T &) const { return 2; } };         // 2 (int)
+struct WFloat { template <class T> float operator()(const T &) const { return 0.5f; } };  // 1/2 (float)
+struct WBool { template <class T> bool operator()(const T &) const { return true; } };    // 1 (bool)
 static const std::vector<i64> &stateless_coeffs(i64 k) {  // numerators over 2
-  static const std::vector<i64> a{2, 0, 2}, b{0, 2}, cc{1, -4, 0, 2}, none;
-  return k == 1 ? a : k == 2 ? b : k == 3 ? cc : none;
+  static const std::vector<i64> a{2, 0, 2}, b{0, 2}, cc{1, -4, 0, 2}, i2{4}, f05{1}, b1{2}, none;
+  return k == 1 ? a : k == 2 ? b : k == 3 ? cc : k == 4 ? i2 : k == 5 ? f05 : k == 6 ? b1 : none;
 }
 template <size_t n, class F, class S1, class S2>
 static auto integ(i64 k, const F &f, const S1 &m1, const S2 &m2) {
@@ -56,6 +61,9 @@ static auto integ(i64 k, const F &f, const S1 &m1, const S2 &m2) {
     case 1: return bspline::integration::integrate<n>(WA{}, m1, m2);
     case 2: return bspline::integration::integrate<n>(WB{}, m1, m2);
     case 3: return bspline::integration::integrate<n>(WC{}, m1, m2);
+    case 4: return static_cast<decltype(bspline::integration::integrate<n>(f, m1, m2))>(bspline::integration::integrate<n>(WInt{}, m1, m2));
+    case 5: return static_cast<decltype(bspline::integration::integrate<n>(f, m1, m2))>(bspline::integration::integrate<n>(WFloat{}, m1, m2));
+    case 6: return static_cast<decltype(bspline::integration::integrate<n>(f, m1, m2))>(bspline::integration::integrate<n>(WBool{}, m1, m2));
     default: return bspline::integration::integrate<n>(f, m1, m2);
   }
 }
@@ -63,8 +71,8 @@ static auto integ(i64 k, const F &f, const S1 &m1, const S2 &m2) {
 template <class T, size_t o1, size_t o2, size_t n>
 static void quad_T(const QuadC &c0, vf::Obs &o) {
   QuadC c = c0;
-  if (c.stateless < 0 || c.stateless > 3) c.stateless = 0;
-  if (c.stateless) { c.f = stateless_coeffs(c.stateless); c.fden = 2; o.cls("weight:stateless-functor"); } else o.cls("weight:capturing-lambda");
+  if (c.stateless < 0 || c.stateless > 6) c.stateless = 0;
+  if (c.stateless) { c.f = stateless_coeffs(c.stateless); c.fden = 2; o.cls(c.stateless >= 4 ? "weight:narrower-return-type" : "weight:stateless-functor"); } else o.cls("weight:capturing-lambda");
   if (c.prelude) {
     // the same template instantiation is first used on another grid with the same number of points, which dies before the real one is built
     o.cls("prelude:other-grid-of-equal-size-first");
@@ -210,7 +218,7 @@ int main(int argc, char **argv) {
     c.fden = one_of<i64>({1, 2, 4});
     for (int k = 0; k <= d; k++) c.f.push_back(k == d ? (chance(50) ? pick(1, 6) : -pick(1, 6)) : pick(-6, 6));
     if (chance(12)) { c.o2 = c.o1; c.m2 = c.m1; c.distinct = 0; }  // identical operands: also evaluated with ONE object on both sides
-    if (chance(45)) { c.stateless = pick(1, 3); c.f = stateless_coeffs(c.stateless); c.fden = 2; }
+    if (chance(45)) { c.stateless = pick(1, 6); c.f = stateless_coeffs(c.stateless); c.fden = 2; }
     c.prelude = chance(40);
     return c;
   });
